@@ -40,7 +40,8 @@ LEVEL_TEXT = ("Exploration: hundreds (quick) to thousands (thorough) of generate
               " Populations built by the older constructor from a list of file names (lazy, and eager when the caller asks: every file exactly once at construction, never again); directories of extended-format files through from_eswc; population transforms whose outputs carry no source."
               " A mapped function that maps over another population."
               " User containers offering only __getitem__ / __len__; one population of more than 1024 files; from_eswc directories; the older list-of-names constructor."
-              " The caller's list of names reversed / truncated after construction.")
+              " The caller's list of names reversed / truncated after construction."
+              " Two data sets with the same relative layout opened by relative root after chdir.")
 LEVEL_NOTE = ("'The i-th file' is the i-th entry of the library's own listing (Population.find_swcs), "
               "which must be a permutation of the layout's .swc files; the order of a directory walk "
               "is the operating system's. Population.map runs in worker processes and is decided at "
